@@ -280,6 +280,41 @@ def r12_3(ctx):
         if coords == {(2, 'x'), (2, 'y'), (3, 'x'), (3, 'y')} and has_len:
             full += 1
     ctx.check(full >= 1, R, 'draw_target::Source::new_linear_gradient|matrix', b.loc(), 'matrix depends on start.x, start.y, end.x, end.y and the length', 'no arm of new_linear_gradient builds a matrix that depends on both coordinates of start and end and on the length')
+    # what the regular matrix does, as polynomial identities over the coordinates (normalize(v) = v / |v|, 1/|v| kept as
+    # one symbol): M(start) = (0, 0) — t is 0 at the start point —, M(end) lies on the t axis (its second coordinate is 0
+    # — a rotation by the angle of the gradient vector with the wrong sign sends it elsewhere), and its first coordinate is
+    # (dx^2 + dy^2) / |v|^2, which is 1 by the definition of the length
+    import geomalg
+    va = geomalg.VA(ctx)
+    sx, sy = Poly.leaf(('field', P(2), 'x', 'P', None)), Poly.leaf(('field', P(2), 'y', 'P', None))
+    ex, ey = Poly.leaf(('field', P(3), 'x', 'P', None)), Poly.leaf(('field', P(3), 'y', 'P', None))
+    for t in aggs:
+        D = Deps(an)
+        D.closure(t[4][2][1])
+        if not any(is_call(x, '::length') for x in D.visited):
+            continue
+        mt = t[4][2][1]
+        if strip_all(mt)[0] in ('mem', 'phi'):
+            mt = shared.resolve_mem(an, strip_all(mt)) if strip_all(mt)[0] == 'mem' else mt
+        M = geomalg.eval_affine(va, mt)
+        if M is None or M.inverse_of is not None:
+            ctx.fail(R, 'draw_target::Source::new_linear_gradient|matrix maps start to 0 and end to 1', b.loc(), 'the gradient matrix of new_linear_gradient is not built from Transform::new / translation / scale / then / pre_* of polynomial entries (%s): cannot show that t is 0 at `start` and 1 at `end` (fail closed)' % fmt(b, strip_all(mt))[:160])
+            continue
+        m11, m12, m21, m22, m31, m32 = M.m
+        def at(px, py):
+            return (geomalg.cancel_inv(px * m11 + py * m21 + m31), geomalg.cancel_inv(px * m12 + py * m22 + m32))
+        s0, e0 = at(sx, sy), at(ex, ey)
+        zero = Poly()
+        dx, dy = ex - sx, ey - sy
+        ils = [l for l in e0[0].leaves() if isinstance(l, tuple) and l and l[0] == 'inv']
+        ok1 = s0[0] == zero and s0[1] == zero
+        ok2 = e0[1] == zero
+        ok3 = False
+        if len(set(ils)) == 1:
+            il = Poly.leaf(ils[0])
+            ok3 = e0[0] == (dx * dx + dy * dy) * il * il and any(is_call(x, '::length') for x in subterms(ils[0][1]))
+        ctx.check(ok1 and ok2 and ok3, R, 'draw_target::Source::new_linear_gradient|matrix maps start to 0 and end to 1', b.loc(), 'M(start) = (0,0), M(end) = ((dx^2+dy^2)/|v|^2, 0)',
+                  'the gradient matrix of new_linear_gradient does not send `start` to t = 0 and `end` to t = 1 on the t axis: M(start) = (%s, %s), M(end) = (%s, %s) — the gradient runs along a different line (e.g. the mirrored vector (dx, -dy) when the rotation has the wrong sign)' % (s0[0].show(b)[:60], s0[1].show(b)[:60], e0[0].show(b)[:80], e0[1].show(b)[:80]))
     # the degenerate matrix is used for a zero-length gradient only: the regular arm is guarded by `length != 0` and by
     # nothing else (a threshold such as `length >= 1` is in user units and swallows short gradients that a scaling
     # transform makes many pixels long)
